@@ -13,6 +13,7 @@ package dnssvc
 // decides.
 
 import (
+	"os"
 	"bytes"
 	"context"
 	"crypto/ecdsa"
@@ -144,6 +145,15 @@ func c07Upstream(rng *rand.Rand, mu *sync.Mutex) dnsserver.Handler {
 	})
 }
 
+// c07CacheConf is the cache of the world: the ECS-aware one or (VERIF_CACHE=simple)
+// the plain one of the default configuration.
+func c07CacheConf() *CacheConfig {
+	if os.Getenv("VERIF_CACHE") == "simple" {
+		return &CacheConfig{Type: CacheTypeSimple, NoECSCount: 10000, MinTTL: 10 * time.Second}
+	}
+	return &CacheConfig{Type: CacheTypeECS, NoECSCount: 10000, ECSCount: 10000, MinTTL: 10 * time.Second}
+}
+
 func TestVerifC07Stack(t *testing.T) {
 	out := vhOpen(t)
 	rng := rand.New(rand.NewSource(vhSeed()))
@@ -223,7 +233,7 @@ func TestVerifC07Stack(t *testing.T) {
 	}
 	handlers, err := NewHandlers(context.Background(), &HandlersConfig{
 		BaseLogger: slogutil.NewDiscardLogger(), Cloner: cloner,
-		Cache:         &CacheConfig{Type: CacheTypeECS, NoECSCount: 10000, ECSCount: 10000, MinTTL: 10 * time.Second},
+		Cache:         c07CacheConf(),
 		HumanIDParser: agd.NewHumanIDParser(), Messages: msgs, StructuredErrors: agdtest.NewSDEConfig(true), AccessManager: global,
 		BillStat:     &agdtest.BillStatRecorder{OnRecord: func(context.Context, agd.DeviceID, geoip.Country, geoip.ASN, time.Time, agd.Protocol) {}},
 		CacheManager: agdcache.EmptyManager{},
